@@ -8,7 +8,7 @@ C36 — protocol-level ghost state used by the statements of `c36_send_safe` (no
 * `E c`    the block has been put into the store at some point of the history.
 * `D p c`  peer `p` sent a want for `c` (CID not ignored) with the send-DONT_HAVE flag set, at some point.
 * `A p c`  peer `p` asked for `c` (want, not cancel, CID not ignored) at a moment when the request filter denied it,
-           the block was not in the store, or the block has length zero (see the known finding on empty blocks).
+           or the block was not in the store.
 -/
 namespace C36
 
@@ -39,7 +39,7 @@ def specStep (cfg : Cfg) (s : State) (sp : Spec) : Op → Spec
           else sp.W p' c
         A := fun p' c =>
           if p' = p then
-            sp.A p c || es.any fun e => isAsk cfg e && e.cid == c && (cfg.denied p c || !s.has c || cfg.size c == 0)
+            sp.A p c || es.any fun e => isAsk cfg e && e.cid == c && (cfg.denied p c || !s.has c)
           else sp.A p' c
         D := fun p' c =>
           if p' = p then sp.D p c || es.any fun e => isAsk cfg e && e.cid == c && e.sdh
